@@ -35,8 +35,35 @@ type Server struct {
 	cancel   context.CancelFunc
 }
 
-// Quiet silences slog (the engine logs a lot).
-func Quiet() { slog.SetDefault(slog.New(slog.NewTextHandler(io.Discard, nil))) }
+// Quiet silences slog (the engine logs a lot) - except recovered gateway panics, whose message and
+// stack are appended to the file named by VERIF_PANIC_LOG (if set), so that a "request panicked"
+// observation of a harness can be explained afterwards.
+func Quiet() { slog.SetDefault(slog.New(panicOnly{slog.NewTextHandler(io.Discard, nil)})) }
+
+type panicOnly struct{ slog.Handler }
+
+func (p panicOnly) Enabled(_ context.Context, l slog.Level) bool { return l >= slog.LevelError }
+func (p panicOnly) Handle(_ context.Context, r slog.Record) error {
+	if !strings.Contains(r.Message, "panic") {
+		return nil
+	}
+	path := os.Getenv("VERIF_PANIC_LOG")
+	if path == "" {
+		return nil
+	}
+	f, err := os.OpenFile(path, os.O_APPEND|os.O_CREATE|os.O_WRONLY, 0o644)
+	if err != nil {
+		return nil
+	}
+	defer f.Close()
+	var sb strings.Builder
+	sb.WriteString("==== " + r.Message + "\n")
+	r.Attrs(func(a slog.Attr) bool { sb.WriteString(a.Key + ": " + a.Value.String() + "\n"); return true })
+	_, _ = f.WriteString(sb.String())
+	return nil
+}
+func (p panicOnly) WithAttrs([]slog.Attr) slog.Handler { return p }
+func (p panicOnly) WithGroup(string) slog.Handler      { return p }
 
 // Start boots an engine whose data lives under root/data. depth/perLevel are the hashed
 // folder parameters (the production server uses 1 and 1000).
